@@ -794,6 +794,7 @@ def fold_pointer_null_tests(f):
     null constant, and is never assigned: keep the branch that is taken."""
     from .astutil import is_null_expr
     known = {}
+    intval = {}
     for x in walk(f.body):
         if x["kind"] == "VarDecl" and kids(x) and str(x.get("id", "")).startswith("inl") and "*" in (x.get("type") or ""):
             ini = strip(kids(x)[0], casts=True)
@@ -801,23 +802,42 @@ def fold_pointer_null_tests(f):
                 known[x["id"]] = True            # non-null
             elif is_null_expr(kids(x)[0]):
                 known[x["id"]] = False
+        elif x["kind"] == "VarDecl" and kids(x) and str(x.get("id", "")).startswith("inl") and \
+                (x.get("type") or "").replace("const ", "").strip() in ("bool", "_Bool", "int", "unsigned int"):
+            # a flag parameter that was given a literal: the helper's tests of it are decided at this call
+            ini = strip(kids(x)[0], casts=True)
+            if ini["kind"] in ("IntegerLiteral", "CXXBoolLiteralExpr"):
+                try:
+                    intval[x["id"]] = int(ini.get("value", 0)) if not isinstance(ini.get("value"), bool) else int(ini["value"])
+                except (TypeError, ValueError):
+                    pass
     for x in walk(f.body):
         if x["kind"] in ("BinaryOperator", "CompoundAssignOperator") and x.get("opcode", "").endswith("=") and \
                 x.get("opcode") not in ("==", "!=", "<=", ">="):
             t = strip(kids(x)[0], casts=True)
             if t["kind"] == "DeclRefExpr":
                 known.pop(t["ref"].get("id"), None)
-        if x["kind"] == "UnaryOperator" and x.get("opcode") in ("++", "--"):
+                intval.pop(t["ref"].get("id"), None)
+        if x["kind"] == "UnaryOperator" and x.get("opcode") in ("++", "--", "&"):
             t = strip(kids(x)[0], casts=True)
             if t["kind"] == "DeclRefExpr":
                 known.pop(t["ref"].get("id"), None)
-    if not known:
+                intval.pop(t["ref"].get("id"), None)
+    if not known and not intval:
         return False
 
     def decide(c):
         c = strip(c, casts=True)
         if c["kind"] == "DeclRefExpr" and c["ref"].get("id") in known:
             return known[c["ref"]["id"]]
+        if c["kind"] == "DeclRefExpr" and c["ref"].get("id") in intval:
+            return intval[c["ref"]["id"]] != 0
+        if c["kind"] == "BinaryOperator" and c.get("opcode") in ("!=", "=="):
+            a0, b0 = strip(kids(c)[0], casts=True), strip(kids(c)[1], casts=True)
+            for u, v in ((a0, b0), (b0, a0)):
+                if u["kind"] == "DeclRefExpr" and u["ref"].get("id") in intval and v["kind"] == "IntegerLiteral":
+                    eq = intval[u["ref"]["id"]] == int(v["value"])
+                    return eq if c["opcode"] == "==" else not eq
         if c["kind"] == "UnaryOperator" and c.get("opcode") == "!":
             v = decide(kids(c)[0])
             return None if v is None else not v
